@@ -298,7 +298,7 @@ fn call(s: &Sys, ep: Ep, alt: bool) -> bool {
         Ep::GwTransferOwnership => ok!(s.gw.try_transfer_ownership(who)),
         Ep::GwTransferOperatorship => ok!(s.gw.try_transfer_operatorship(who)),
         Ep::GwUpgrade => ok!(s.gw.try_upgrade(&hash)),
-        Ep::GwMigrate => ok!(s.gw.try_migrate(&())),
+        Ep::GwMigrate => migrate_typed(env, &s.gw.address, "axelar-gateway", &MigHints::default()).is_ok(),
         Ep::GwRotateBypass => {
             let new_set = simple_set(if alt { 31 } else { 30 });
             let dh = new_set.rotation_data_hash();
@@ -313,23 +313,23 @@ fn call(s: &Sys, ep: Ep, alt: bool) -> bool {
         }
         Ep::GasTransferOwnership => ok!(s.gas.try_transfer_ownership(who)),
         Ep::GasUpgrade => ok!(s.gas.try_upgrade(&hash)),
-        Ep::GasMigrate => ok!(s.gas.try_migrate(&())),
+        Ep::GasMigrate => migrate_typed(env, &s.gas.address, "axelar-gas-service", &MigHints::default()).is_ok(),
         Ep::GasCollectFees => ok!(s.gas.try_collect_fees(who, &Token { address: s.asset.clone(), amount: payout_amount(s, alt) })),
         Ep::GasRefund => ok!(s.gas.try_refund(&sstr(env, "msg-1"), who, &Token { address: s.asset.clone(), amount: payout_amount(s, alt) })),
         Ep::OpsTransferOwnership => ok!(s.ops.try_transfer_ownership(who)),
         Ep::OpsUpgrade => ok!(s.ops.try_upgrade(&hash)),
-        Ep::OpsMigrate => ok!(s.ops.try_migrate(&())),
+        Ep::OpsMigrate => migrate_typed(env, &s.ops.address, "axelar-operators", &MigHints::default()).is_ok(),
         Ep::OpsAddOperator => ok!(s.ops.try_add_operator(who)),
         Ep::OpsRemoveOperator => ok!(s.ops.try_remove_operator(who)),
         Ep::ItsTransferOwnership => ok!(s.its.try_transfer_ownership(who)),
         Ep::ItsUpgrade => ok!(s.its.try_upgrade(&hash)),
-        Ep::ItsMigrate => ok!(s.its.try_migrate(&())),
+        Ep::ItsMigrate => migrate_typed(env, &s.its.address, "interchain-token-service", &MigHints::default()).is_ok(),
         Ep::ItsSetTrustedChain => ok!(s.its.try_set_trusted_chain(&chain)),
         Ep::ItsRemoveTrustedChain => ok!(s.its.try_remove_trusted_chain(&chain)),
         Ep::TokTransferOwnership => ok!(s.token.try_transfer_ownership(who)),
         Ep::TokSetAdmin => ok!(s.token.try_set_admin(who)),
         Ep::TokUpgrade => ok!(s.token.try_upgrade(&hash)),
-        Ep::TokMigrate => ok!(s.token.try_migrate(&())),
+        Ep::TokMigrate => migrate_typed(env, &s.token.address, "interchain-token", &MigHints::default()).is_ok(),
         Ep::TokAddMinter => ok!(s.token.try_add_minter(who)),
         Ep::TokRemoveMinter => ok!(s.token.try_remove_minter(who)),
         Ep::TokOwnerMint => ok!(s.token.try_mint(who, &amount)),
